@@ -95,15 +95,16 @@ type Result struct {
 
 // Options for one execution.
 type Options struct {
-	Prefix      []int
-	Bound       int                // deviation budget (for pruning decisions)
-	Visited     map[[2]uint64]int8 // state key -> best remaining budget explored (nil = no pruning)
-	Trace       bool
-	StepLimit   int
-	NewestFirst bool // default scheduler prefers the most recently created enabled thread instead of the oldest
-	DelayBound  bool // every non-default scheduling choice costs one deviation (delay bounding), not only preemptions
-	EarlyTimers bool // timers may fire early at the cost of one deviation
-	MaxTicks    int  // cap on periodic timer firings per execution
+	Prefix         []int
+	Bound          int                // deviation budget (for pruning decisions)
+	Visited        map[[2]uint64]int8 // state key -> best remaining budget explored (nil = no pruning)
+	Trace          bool
+	StepLimit      int
+	NoSchedChoices bool // scheduling decisions always take the default (only Choose/ChooseFree points branch)
+	NewestFirst    bool // default scheduler prefers the most recently created enabled thread instead of the oldest
+	DelayBound     bool // every non-default scheduling choice costs one deviation (delay bounding), not only preemptions
+	EarlyTimers    bool // timers may fire early at the cost of one deviation
+	MaxTicks       int  // cap on periodic timer firings per execution
 }
 
 type exec struct {
@@ -398,7 +399,7 @@ func (e *exec) schedule(t *thread) {
 		}
 		idx := 0
 		nalt := len(en) + e.earlyTimerAlternatives()
-		if nalt > 1 {
+		if nalt > 1 && !e.opt.NoSchedChoices {
 			idx = e.choose(nalt, curEnabled || e.opt.DelayBound, "sched")
 		}
 		if idx >= len(en) {
